@@ -105,9 +105,9 @@ Qed.
 Lemma counts_shift {A B} c (d : dec (A * N)) (g : A -> B) :
   robust d -> counts 0 d -> counts c (bind d (fun x => let '(a, n2) := x in Ret (g a, c + n2))).
 Proof.
-  intros R Hd. apply counts_bind; [exact R| |].
-  - intros s r n rest H. apply Hd in H. lia.
-  - intros a n1. intros s r n rest H. cbn in H. inversion H; subst. lia.
+  intros R Hd s r n rest H. rewrite run_flat_bind in H by exact R.
+  destruct (run_flat d s) as [[a n2] r1| | |] eqn:E; try discriminate H.
+  cbn in H. inversion H; subst. apply Hd in E. lia.
 Qed.
 
 Lemma counts_read32 : counts 0 read32.
@@ -264,3 +264,44 @@ Proof.
     rewrite (run_bind_ok _ _ _ _ _ (scan_robust _ _) Hrs). cbn [run_flat].
     exists (r :: rs). split; [reflexivity|]. constructor; [exact Hv|exact Hvs].
 Qed.
+
+(* ---------------------------------------------------------------- corollaries in the form used by Props *)
+Lemma read_count_exact fuel t old s r n rest :
+  run_flat (read_f fuel t old) s = FOk (r, n) rest -> lenN s = n + lenN rest.
+Proof. intros H. apply (read_counts fuel t old) in H. lia. Qed.
+
+Lemma read_consumes_prefix fuel t old s r n rest :
+  run_flat (read_f fuel t old) s = FOk (r, n) rest -> exists c, s = c ++ rest /\ lenN c = n.
+Proof.
+  intros H. destruct (robust_rest_suffix _ (read_f_robust fuel t old) _ _ _ H) as [c Hc].
+  exists c. split; [exact Hc|]. apply read_count_exact in H. subst s. rewrite lenN_app in H. lia.
+Qed.
+
+Lemma read_never_panics fuel t old s : not_panic (run_flat (read_f fuel t old) s).
+Proof. apply ncr_run. apply read_f_ncr. Qed.
+Lemma scan_never_panics fuel fs s : not_panic (run_flat (scan fuel fs) s).
+Proof. apply ncr_run. apply scan_ncr. Qed.
+
+Lemma option_absent_frame fuel e h x rest :
+  run_flat (read_f fuel (TOption e) (VOpt h x)) (0 :: rest) = FOk (VOpt false x, 1) rest.
+Proof. reflexivity. Qed.
+Lemma opt_off_frame fuel e old s : run_flat (read_f fuel (TOpt false e) old) s = FOk (old, 0) s.
+Proof. reflexivity. Qed.
+Lemma opt_off_writes_nothing e v : wr (TOpt false e) v = ([], 0).
+Proof. reflexivity. Qed.
+
+Lemma ary_parametric (re : fval -> rd) (we : fval -> wres) (vw : fval -> fval) :
+  (forall o, robust (re o)) ->
+  forall l zero xs fuel old rest,
+  Forall (elem_ok re we vw) xs -> (length xs <= fuel)%nat -> (Z.of_N (lenN xs) <= lenk_max l)%Z ->
+  let img := fst (wcat (w_len l (Z.of_N (lenN xs))) (w_seq we xs)) in
+  exists rs, run_flat (r_ary fuel l re zero old) (img ++ rest) = FOk (VList rs [], lenN img) rest
+             /\ map vw rs = map vw xs.
+Proof. intros R l zero xs fuel old rest. apply r_ary_rt. exact R. Qed.
+
+Lemma option_parametric (re : fval -> rd) (we : fval -> wres) (vw : fval -> fval) :
+  (forall o, robust (re o)) ->
+  forall zero v old rest, elem_ok re we vw v ->
+  let img := fst (wcat (w_bool true) (we v)) in
+  exists r, run_flat (r_option re zero old) (img ++ rest) = FOk (VOpt true r, lenN img) rest /\ vw r = vw v.
+Proof. intros R zero v old rest. apply r_option_some_rt. exact R. Qed.
